@@ -467,6 +467,17 @@ void op_sizes(const Case& c, TaskCtx& t, Outcome& o) {
     t.stats->tuple("sizes|" + std::to_string(pb) + "|" + (ss ? "enabled" : "refused"));
   }
   std::string what = "parameter value " + std::to_string(pb);
+  {
+    // parameter getters on in-memory keys carrying this byte: the byte itself if enabled, INVALID (0) otherwise
+    bytes skq(tc_sizeof_privatekey, 0x5a), pkq(tc_sizeof_publickey, 0x5a);
+    skq[0] = pkq[0] = (uint8_t)pb;
+    int g1 = libcall(t, [&] { return picnic_get_private_key_param(skq.data()); });
+    int g2 = libcall(t, [&] { return picnic_get_public_key_param(pkq.data()); });
+    int want = expect_enabled ? pb : 0;
+    if (g1 != want || g2 != want)
+      CHECK_FAIL(pp && !expect_enabled ? "C17.disabled_parameter_not_refused" : "C11.param_getter", what + ": parameter getters return " + std::to_string(g1) + "/" + std::to_string(g2) +
+                                                                                                          " for an in-memory key carrying that byte, expected " + std::to_string(want));
+  }
   if (!expect_enabled) {
     if (ss || sks || pks)
       CHECK_FAIL(pp ? "C17.disabled_parameter_not_refused" : "C11.size_query_for_invalid_parameter",
